@@ -18,6 +18,16 @@ def snapshot():
         out.append(f"fn f(l: [int]) {{ for x in l {{ println(x); {m} }} }} fn main() {{ let a = [1, 2, 3]; f(a); println(a); }}")
     for m in ["s = \"zz\";", "s += \"q\";"]:
         out.append(f"fn main() {{ let s = \"abc\"; for c in s {{ println(c); {m} }} println(s); }}")
+    # every loop starts its iterable from the beginning: a loop left early, or nested loops over the SAME value, must not
+    # share an iteration cursor (strings, ranges, lists; variable, parameter, literal)
+    for it, decl in [('s', 'let s = "abc";'), ('r', 'let r = 0..3;'), ('l', 'let l = [7, 8, 9];'), ('q', 'let q = 2..=0;')]:
+        out.append(f"fn main() {{ {decl} for c in {it} {{ println(c); break; }} for c in {it} {{ println(c); }} }}")
+        out.append(f"fn main() {{ {decl} for a in {it} {{ for b in {it} {{ print(a, b, \"|\"); }} }} println(); }}")
+        out.append(f"fn main() {{ {decl} for a in {it} {{ for b in {it} {{ print(a, b, \"|\"); break; }} }} println(); }}")
+        out.append(f"fn main() {{ {decl} let n = 0; for c in {it} {{ if n == 1 {{ continue; }}; n += 1; try {{ for d in {it} {{ throw(\"x\"); }} }} catch e {{ print(c, \"!\"); }}; }} println(n); }}")
+    out.append("fn first(s: str) -> str { for c in s { return c; } \"\" } fn main() { let s = \"xyz\"; println(first(s)); println(first(s)); let n = 0; for c in s { n += 1; } println(n); }")
+    out.append("fn upto(r: range) -> int { for i in r { if i == 1 { return i; } } 0 - 1 } fn main() { let r = 0..5; println(upto(r)); println(upto(r)); for i in r { print(i); } println(); }")
+    out.append("fn main() { for i in 0..3 { for c in \"abc\" { println(c); break; } } for i in 0..2 { for j in 5..8 { if j == 6 { break; } print(i, j, \"|\"); } } println(); }")
     out.append("fn main() { let a = 0; let b = 3; for i in a..b { println(i); b = 10; a = 5; } println(a, b); }")
     out.append("fn main() { let l = [1, 2, 3]; for x in l { for y in l { print(x * 10 + y, \"\"); } } println(); }")
     out.append("fn main() { let l = [1, 2]; for x in l { for y in l { l[1] = 7; print(x, y, \"\"); } } println(l); }")
@@ -185,6 +195,49 @@ def lambdas():
     ]
 
 
+def feature_corpus():
+    """One program per language feature that the random generator does not produce (inclusive ranges, match on strings /
+    bools / floats / lists, float division and powers, string members, options, any-objects, compound assignment on
+    elements and fields, casts, every kind of global): judged VM == interpreter (C04) and, where the specification covers
+    the feature, against the specification (C01)."""
+    return [
+ # every evaluation of a literal creates a fresh container (loop body, function called twice, recursion)
+ "fn mk(k: str) -> { ? } { let o = new { ? }; o.set(k, 1); o } fn main() { let a = mk(\"a\"); let b = mk(\"b\"); println(a.keys(), b.keys(), a == b); for i in 0..3 { let o = new { ? }; o.set(i.to_string(), i); println(o.keys(), o.get(\"0\")); } }",
+ "fn mk(n: int) -> [int] { let l = [0]; l.push(n); l } fn mo(n: int) -> { a: int, l: [int] } { let o = new { a: 0, l: [0] }; o.a += n; o.l.push(n); o } fn main() { let a = mk(1); let b = mk(2); println(a, b); let p = mo(1); let q = mo(2); println(p, q, p == q); for i in 0..3 { let l = [[i]]; l[0].push(9); println(l); } }",
+ "fn rec(n: int) -> [str] { let acc = [\"x\"]; if n > 0 { let sub = rec(n - 1); acc.concat(sub); }; acc.push(n.to_string()); acc } fn main() { println(rec(3)); println(rec(1)); }",
+ # inclusive ranges, range members
+ "fn main() { for i in 1..=3 { print(i, \"\"); } println(); let r = 2..=5; println(r, r.rev(), r.diff()); for j in (0..3).rev() { print(j); } println(); for k in 5..2 { print(k); } println(); }",
+ # match on strings / bools / several literals
+ "fn f(s: str) -> int { match s { \"a\" => 1, \"b\" | \"c\" => 2, _ => 0 } } fn main() { println(f(\"a\"), f(\"c\"), f(\"zz\")); let b = true; println(match b { true => \"t\", _ => \"f\" }); println(match 2.5 { 2.5 => 1, _ => 0 }); println(match [1, 2] { [1, 2] => \"l\", _ => \"n\" }); }",
+ # float arithmetic and printing
+ "fn main() { let a = 7.5; let b = 2.0; println(a + b, a - b, a * b, a / b, a ** b, -a, a < b, a == 7.5); println(1.0 / 4.0, 0.5 + 0.25, 100.0, 2.0 ** 3.0); println((7.9) as int, (-7.9) as int, 3 as float, \"4.5\".parse_float(), a.round(), a.trunc(), b.is_int(), a.to_string()); }",
+ # string ops
+ "fn main() { let s = \"héllo wörld\"; println(s.len(), s.to_upper(), s.to_lower(), s.replace(\"l\", \"L\"), s.contains(\"wö\"), s.split(\" \"), s.starts_with(\"hé\"), s.substring(3), s.repeat(2)); println(\"abc\" != \"abd\", \"abc\" == \"abc\", \"a\" + \"b\" + 1.to_string()); for c in \"añb\" { print(c, \"|\"); } println(); }",
+ # options
+ "fn g(n: int) -> ?int { if n > 0 { ?n } else { none } } fn main() { let a = g(3); let b = g(-1); println(a, b, a.is_some(), b.is_none(), a.unwrap(), b.unwrap_or(7), a == ?3, b == none); if a.is_some() { println(a.unwrap() + 1); }; let c: ?[int] = ?[1]; c.unwrap().push(2); println(c); }",
+ # any-objects
+ "fn main() { let o = new { ? }; o.set(\"b\", 2); o.set(\"a\", \"x\"); println(o, o.keys(), o.get(\"a\"), o.get(\"zz\")); let t = new { x: 1, y: [1, 2] }; let d = t as { ? }; println(d.keys(), d.get(\"y\")); }",
+ # compound assignment on elements/fields
+ "fn main() { let l = [1, 2, 3]; l[0] += 10; l[-1] *= 2; l[1] -= 5; let o = new { a: 1, s: \"x\" }; o.a <<= 3; o.s += \"y\"; o.a %= 5; println(l, o); let n = [[1], [2]]; n[1][0] **= 3; println(n); }",
+ # nested functions values, recursion, early return values
+ "fn fib(n: int) -> int { if n < 2 { return n; } fib(n - 1) + fib(n - 2) } fn main() { println(fib(15)); let fs = [fib]; println(fs[0](10)); }",
+ # while with complex conditions, loop with break value? nested break/continue
+ "fn main() { let i = 0; let s = 0; while i < 10 && s < 20 { i += 1; if i % 2 == 0 { continue; } s += i; } println(i, s); let n = 0; loop { n += 1; for j in 0..5 { if j == 3 { break; } if j == 1 { continue; } n += j; } if n > 10 { break; } } println(n); }",
+ # try value, nested try, rethrow, e fields
+ "fn t(n: int) -> int { try { if n == 0 { throw(\"zero\"); } 10 / n } catch e { println(e.message, e.line > 0, e.column > 0, e.filename); -1 } } fn main() { println(t(2), t(0)); try { try { throw(\"in\"); } catch a { throw(a.message + \"!\"); } } catch b { println(b.message); } }",
+ # globals of all kinds and mutation from functions
+ "let gi = 1; let gs = \"s\"; let gl = [1]; let go = new { k: 1 }; let gf = 1.5; let gb = true; let gn: ?int = none; fn m() { gi += 1; gs += \"t\"; gl.push(2); go.k = 5; gf *= 2.0; gb = !gb; gn = ?3; } fn main() { m(); m(); println(gi, gs, gl, go, gf, gb, gn); }",
+ # list members
+ "fn main() { let l = [3, 1, 2]; println(l.len(), l.contains(2), l.last()); println(l.pop()); println(l.pop_front()); println(l); l.push_front(9); l.insert(1, 7); l.remove(0); l.concat([4, 5]); println(l, l.join(\"-\")); l.sort(); println(l); }",
+ # int members / conversions
+ "fn main() { let n = 255; println(n.to_string(), n.to_range(), (5).to_range(), n as float, n as bool, 0 as bool, true as int, \"12\".parse_int() + 1); }",
+ # if without else as statement / value null, block scoping values
+ "fn main() { let x = 5; let y = if x > 3 { \"big\" } else if x > 1 { \"mid\" } else { \"small\" }; println(y); let z = { let x = 2; x * x }; println(x, z); }",
+ # shifts, bit ops precedence
+ "fn main() { println(1 << 3 | 1, 6 & 3 ^ 1, 2 ** 3 ** 2, -2 ** 2, 10 - 3 - 2, 100 / 10 / 5, 7 % 4 * 2, 1 + 2 < 4 == true, !true || true && false); }",
+    ]
+
+
 def all_families():
     return {
         "snapshot": snapshot(),
@@ -195,6 +248,7 @@ def all_families():
         "intmatrix": int_matrix(),
         "pending": pending_operands(),
         "lambdas": lambdas(),
+        "features": feature_corpus(),
     }
 
 
